@@ -165,7 +165,8 @@ public:
 
   json::Array loc(SourceLocation L) {
     json::Array A;
-    SourceLocation EL = SM.getExpansionLoc(L);
+    // macro argument -> where it is written; macro body -> the expansion point
+    SourceLocation EL = SM.getFileLoc(L);
     PresumedLoc PL = SM.getPresumedLoc(EL);
     if (PL.isValid()) {
       A.push_back((int64_t)PL.getLine());
